@@ -174,6 +174,49 @@ Definition parse_target (s : bytes) : option target :=
             end
   end.
 
+(* ---- header lookup (HttpRequest::header / HttpResponse::header) ------------------------ *)
+
+Definition lower (b : N) : N := if (65 <=? b) && (b <=? 90) then b + 32 else b.
+Fixpoint eq_ignore_ascii_case (a b : bytes) : bool :=
+  match a, b with
+  | [], [] => true
+  | x :: a', y :: b' => (lower x =? lower y) && eq_ignore_ascii_case a' b'
+  | _, _ => false
+  end.
+Fixpoint find_header (name : bytes) (hs : list header) (def : bytes) : bytes :=
+  match hs with
+  | [] => def
+  | (k, v) :: r => if eq_ignore_ascii_case k name then v else find_header name r def
+  end.
+
+(* str::parse::<u32>() *)
+Definition parse_u32 (s : bytes) : option N :=
+  let s' := match s with 43 :: r => r | _ => s end in
+  match parse_dec s' with
+  | Some v => if v <=? 4294967295 then Some v else None
+  | None => None
+  end.
+
+Definition SESSION_ID : bytes := [83; 101; 115; 115; 105; 111; 110; 45; 73; 100].
+Definition PROXY_PROTOCOL : bytes := [80; 114; 111; 120; 121; 45; 80; 114; 111; 116; 111; 99; 111; 108].
+Definition PROXY_CHANNEL : bytes := [80; 114; 111; 120; 121; 45; 67; 104; 97; 110; 110; 101; 108].
+Definition UDP : bytes := [117; 100; 112].
+Definition INLINE : bytes := [105; 110; 108; 105; 110; 101].
+Definition E_UPSTREAM : N := 51.
+Definition E_SESSION_ID : N := 52.
+
+(* h11c_connect after the request is written: what the connector makes of the upstream's reply.
+   TCP: established iff status 200.  UDP: additionally the Session-Id header must be a u32. *)
+Definition connect_reply (udp : bool) (fuel : nat) : rp N :=
+  p <~ read_http_response fuel ;;
+  if negb (hp_code p =? 200) then Fail E_UPSTREAM else
+  if udp then
+    match parse_u32 (find_header SESSION_ID (hp_headers p) [48]) with
+    | Some sid => Ret sid
+    | None => Fail E_SESSION_ID
+    end
+  else Ret 0.
+
 (* hosts the CONNECT line can carry: no ASCII control byte, space or DEL *)
 Definition host_line_safe (h : bytes) : bool := forallb (fun b => (32 <? b) && negb (b =? 127)) h.
 Definition target_line_safe (t : target) : bool :=
@@ -188,6 +231,13 @@ Definition write_connect (t : target) : outcome bytes :=
   if target_line_safe t then
     let r := print_target t in
     Ok (write_http_request (mk_hreq CONNECT r HTTP11 (with_header HOST r [])))
+  else Err E_UNSAFE_HOST.
+
+Definition write_connect_udp (t : target) : outcome bytes :=
+  if target_line_safe t then
+    let r := print_target t in
+    Ok (write_http_request (mk_hreq CONNECT r HTTP11
+          (with_header PROXY_CHANNEL INLINE (with_header PROXY_PROTOCOL UDP (with_header HOST r [])))))
   else Err E_UNSAFE_HOST.
 
 (* h11c_handshake: the destination the next hop extracts *)
